@@ -805,6 +805,7 @@ pub fn add_wide_and_deep(spec: &mut Snapshot, rng: &mut Rng, block: usize, max_p
     for name in [long_ascii.as_str(), long_multi.as_str(), "a\\b", "trailing.", "trailing ", "CON", "~", "-", "..."] {
         spec.insert(format!("{wide}/{name}"), Node::file(gen_content(rng, 3)));
     }
+    add_longest_names(spec, rng, wide);
     let mut deep = String::from("/deep");
     spec.insert(deep.clone(), Node::dir());
     for i in 0..30 {
@@ -812,6 +813,19 @@ pub fn add_wide_and_deep(spec: &mut Snapshot, rng: &mut Rng, block: usize, max_p
         spec.insert(deep.clone(), Node::dir());
     }
     spec.insert(format!("{deep}/bottom"), Node::file(gen_content(rng, 10)));
+}
+
+/// Names of exactly 255 bytes, the longest a Linux file system takes: a file with an ASCII name,
+/// a file whose name is 85 three-byte characters, and a directory with a file inside.
+pub fn add_longest_names(spec: &mut Snapshot, rng: &mut Rng, dir_apath: &str) {
+    let ascii = "M".repeat(255);
+    let multi = "\u{20ac}".repeat(85);
+    let dname = format!("d{}", "N".repeat(254));
+    spec.insert(child_of(dir_apath, &ascii), Node::file(gen_content(rng, 9)));
+    spec.insert(child_of(dir_apath, &multi), Node::file(gen_content(rng, 4)));
+    let d = child_of(dir_apath, &dname);
+    spec.insert(d.clone(), Node::dir());
+    spec.insert(child_of(&d, "inside"), Node::file(gen_content(rng, 6)));
 }
 
 /// Put a fifo and a unix socket into `dir` (which must exist). Returns the apaths created.
